@@ -358,6 +358,12 @@ Section Inv.
       + intros; unfold inflight; rewrite Epc; reflexivity.
       + intros c E. inversion E; subst. exact Hpl.
       + eauto.
+    - (* 508: on to the next link, or the answer *)
+      inversion Hst; subst s' l'. clear Hst.
+      destruct (e3_next_cases fxc l nb (looks_empty fxc (getb (heap s) nb))) as [Ee|[r Ee]]; rewrite Ee;
+        (eapply inv_frame; [exact HI|exact Hl|reflexivity|exact Ht0
+          |intros; unfold finish; rewrite ?inflight_enter; unfold inflight; rewrite ?Epc; cbn [goto mk pcl]; reflexivity
+          |unfold finish; try apply pc_ok_enter; unfold pc_ok; cbn [goto mk pcl]; exact Hpl]).
   Qed.
 
   Theorem reachable_Inv ps sched : Inv (fst (exec step site (init_config ps) sched)).
